@@ -31,6 +31,12 @@ CHECKS = {
  "C18": ("history exploration: every SetTimeRange sequence replayed on fresh statements, invariants in every state",
          "Roots are SELECTs with no WHERE or a 1-2 (3) atom condition from the condition model (incl. time on the right, upper-case TIME, bare top-level OR); every sequence of <=2 (3) SetTimeRange calls over 3 windows is replayed on a freshly parsed statement and after every call: ConditionExpr yields exactly the last window, a semantic evaluation of the resulting condition selects exactly the window's points satisfying the original non-time predicates, and the condition does not grow.",
          "The semantic oracle is the harness's own evaluator of time comparisons; states are deduplicated by canonical AST hash.", "3/C18"),
+ "C01": ("deviation-bounded exhaustive enumeration of the statement grammar against generator-intended ASTs",
+         "A grammar model with one generator per statement form (41 forms: SELECT in four contexts, every SHOW/CREATE/DROP/ALTER/GRANT/REVOKE/DELETE/KILL/EXPLAIN/SET PASSWORD form and the cardinality variants) builds both the text and, by hand, the AST it denotes. xplore enumerates every statement whose choice vector has at most d structural, s spelling and v value deviations from the minimal statement of its form (quick (2,0,1) and (1,1,0); thorough (3,0,1), (2,1,1), (1,2,0), (2,0,2)); each is parsed by the real ParseStatement/ParseQuery and compared field by field (every field, also the ones the generator left zero).",
+         "The grammar model is the specification (README EBNF intersected with the parser's deliberate, message-bearing rejections; Appendix A of DESIGN.md). Statements further than the bound from a minimal form are not visited.", "3/C01"),
+ "C02": ("deviation-bounded exhaustive enumeration of accepted statements, print -> re-parse -> structural compare",
+         "Every statement generated by the grammar model within (2,0,1) deviations (thorough (3,0,1) and (2,0,2)) that the parser accepts is printed with String(), re-parsed and compared structurally with the first AST (password re-inserted for the two redacting printers). A failing round trip is attributed to the smallest sub-expression that does not round-trip on its own, or to the first differing AST path.",
+         "Quantifies over statements the grammar model can produce; comparison is structural so pure reformatting cannot alarm.", "3/C02"),
 }
 ALL = ["C%02d" % i for i in range(1, 21)]
 NOT_YET = "check not built yet in this revision of /verif (work in progress; see DESIGN.md section 3 for the planned bounded-exhaustive check)"
